@@ -243,7 +243,10 @@ CLAIMED["C09"] = dict(
     text="Deductive: tables read from the real ASTs of the four task modules and of soundevent.terms.metrics (each row pairs a term "
          "with the metric function of that name; terms of one table pairwise different; metric terms have pairwise different names "
          "and labels); true_class_probability against its definition; the per-item wiring of clip_classification and "
-         "sound_event_classification (value under the term = that metric of the encoded truth and scores); the three "
+         "sound_event_classification (value under the term = that metric of the encoded truth and scores); the accuracy / "
+         "balanced accuracy / top-3 accuracy wrappers against their statement (unlabelled items become the extra class index, "
+         "the predicted class is the arg-max over the scores plus the remaining mass, top-3 over all classes incl. none, k=3), "
+         "relative to uninterpreted numpy row-sum / arg-max and scikit-learn score functions; the three "
          "_compute_overall_score functions (bounded 0-3 clips); the metrics field of Evaluation / ClipEvaluation / Match through "
          "the real AOEF adapters as (label, value) lists. The numerical clauses -- accuracy, balanced accuracy, top-3 accuracy, mean "
          "average precision, average precision, Jaccard index with the extra 'none' class, order independence, the end-to-end "
